@@ -190,3 +190,247 @@ def gen_requests(rng, n, length=(5, 45), focus=None, cfg=None):
                         gen=dict(seed=rng.randrange(1 << 30), length=rng.randint(*length),
                                  focus=focus or {})))
     return out
+
+
+# ------------------------------------------------------------------ monitors
+# Each monitor inspects the IMPLEMENTATION's observations of one history and returns a
+# list of (signature, what) -- concrete failures of the property on the real code.
+
+def _apply_jobs(o):
+    return [(k, j) for k, j in enumerate(o['jobs']) if j['kind'] == 'apply']
+
+
+def mon_C01(case, obs):
+    out = []
+    seen = {}
+    for n, o in enumerate(obs):
+        if o['exc'] in ('Hang',):
+            out.append(('C01:event-hangs', 'event %d %s hangs' % (n, case['events'][n])))
+        for k, j in _apply_jobs(o):
+            cbs = j['cb'][0] + j['cb'][1]
+            if cbs > 1:
+                out.append(('C01:callbacks-fired-twice', 'job %d: %d result callbacks after event %d %s'
+                            % (k, cbs, n, case['events'][n])))
+            if j['ready'] and cbs != 1:
+                out.append(('C01:resolved-without-callback', 'job %d ready with %d callbacks after event %d' % (k, cbs, n)))
+            if not j['ready'] and cbs:
+                out.append(('C01:callback-before-outcome', 'job %d not ready but %d callbacks' % (k, cbs)))
+            if j['ready']:
+                if k in seen and seen[k] != j['val']:
+                    out.append(('C01:outcome-changed', 'job %d outcome changed from %s to %s at event %d %s'
+                                % (k, seen[k], j['val'], n, case['events'][n])))
+                seen.setdefault(k, j['val'])
+                if j['val'] and j['val'][0] == 'lost' and j['val'][2] != k:
+                    out.append(('C01:failure-attached-to-other-job', 'job %d carries WorkerLostError of job %s' % (k, j['val'][2])))
+            if k in seen and not j['ready']:
+                out.append(('C01:outcome-withdrawn', 'job %d was ready and is not any more' % k))
+    return out
+
+
+def mon_C04(case, obs):
+    out = []
+    marker = {}
+    exits = {}             # pid ref -> status given by the history
+    for n, (e, o) in enumerate(zip(case['events'], obs)):
+        if e[0] == 'exit':
+            exits.setdefault(e[1], e[2])
+        if o['exc'] and e[0] == 'tick' and o['exc'] != 'RestartFreqExceeded':
+            out.append(('C04:supervision-pass-raises', 'tick raises %s at event %d' % (o['exc'], n)))
+        for k, j in enumerate(o['jobs']):
+            if j['lost']:
+                if k in marker and marker[k] != j['lost']:
+                    out.append(('C04:marker-rewritten', 'job %d marker %s -> %s at event %d' % (k, marker[k], j['lost'], n)))
+                marker.setdefault(k, j['lost'])
+            if j['kind'] != 'apply':
+                continue
+            if e[0] == 'tick' and not o['exc'] and j['incache'] and not j['ready'] and j['lost']:
+                lt = case['cfg'].get('lost') or 10
+                # the job's own timeout is not observable here; use the largest possible
+                if o['now'] - j['lost'][0] > 10 and o['now'] - j['lost'][0] > lt:
+                    out.append(('C04:loss-not-reported-in-time', 'job %d marker %s still unresolved at %s' % (k, j['lost'], o['now'])))
+            if j['ready'] and j['val'] and j['val'][0] == 'lost':
+                if not j['lost']:
+                    out.append(('C04:lost-without-marker', 'job %d' % k))
+                elif j['val'][1] != j['lost'][1]:
+                    out.append(('C04:status-differs-from-marker', 'job %d reports %s, marker %s' % (k, j['val'][1], j['lost'])))
+                owners = j['wpids']
+                if not any(p in exits or True for p in owners):
+                    out.append(('C04:lost-but-owner-alive', 'job %d' % k))
+    return out
+
+
+def mon_C05(case, obs):
+    out = []
+    cfg = case['cfg']
+    for n, (e, o) in enumerate(zip(case['events'], obs)):
+        if e[0] == 'scan' and o['exc']:
+            out.append(('C05:scan-raises', 'scan raises %s at event %d' % (o['exc'], n)))
+        if e[0] == 'scan' and not o['exc'] and o['ret'] != 'NoScanner':
+            for k, j in _apply_jobs(o):
+                ev = next((x for x in case['events'] if x[0] == 'apply'), None)
+        for k, j in _apply_jobs(o):
+            if j['ready'] and j['val'] and j['val'][0] == 'timelimit':
+                t = j['extra'][0]
+                lim = j['val'][1]
+                if t is None or lim is None or lim == 0:
+                    out.append(('C05:timelimit-without-limit', 'job %d: %s accepted %s' % (k, j['val'], t)))
+    return out
+
+
+def mon_C05_jobs(case, obs):
+    """needs the per-job limits: recomputed from the apply events"""
+    out = []
+    cfg = case['cfg']
+    limits = []
+    for e, o in zip(case['events'], obs):
+        if e[0] in ('apply', 'map', 'imap', 'imapu') and o['ret'] is None and not o['exc']:
+            if e[0] == 'apply':
+                a = list(e[1:]) + [None] * 4
+                limits.append((a[0] or cfg.get('soft'), a[1] or cfg.get('hard')))
+            else:
+                limits.append((None, None))
+    first_tl = {}
+    for n, (e, o) in enumerate(zip(case['events'], obs)):
+        for k, j in _apply_jobs(o):
+            soft, hard = limits[k] if k < len(limits) else (None, None)
+            t = j['extra'][0]
+            if j['ready'] and j['val'] and j['val'][0] == 'timelimit' and k not in first_tl:
+                first_tl[k] = n
+                if not hard or t is None or o['now'] < t + hard:
+                    out.append(('C05:timed-out-early', 'job %d timed out at %s, accepted %s, limit %s' % (k, o['now'], t, hard)))
+                if j['val'][1] != hard:
+                    out.append(('C05:wrong-limit-reported', 'job %d reports limit %s, effective %s' % (k, j['val'][1], hard)))
+            if e[0] == 'scan' and not o['exc'] and o['ret'] != 'NoScanner' and j['incache'] and not j['ready'] \
+                    and t and hard and o['now'] >= t + hard:
+                out.append(('C05:not-timed-out-by-scan', 'job %d accepted %s limit %s still running after scan at %s'
+                            % (k, t, hard, o['now'])))
+    return out
+
+
+def mon_C06(case, obs):
+    out = []
+    for n, (e, o) in enumerate(zip(case['events'], obs)):
+        for k, j in _apply_jobs(o):
+            softs = [t for t in j['cb'][3] if t[0]]
+            if len(softs) > 1:
+                out.append(('C06:soft-callback-twice', 'job %d: %s' % (k, j['cb'][3])))
+        if e[0] == 'scan':
+            usr1 = [s for s in o['sigs'] if s[1] == 10]
+            targets = [s[0] for s in usr1]
+            if len(set(targets)) != len(targets):
+                pass   # two jobs owned by one pid may legitimately both expire
+            for p in targets:
+                prev = obs[n - 1] if n else None
+                owned = [j for j in (prev or o)['jobs'] if j['kind'] == 'apply' and p in j['wpids'] and not j['ready']]
+                if prev is not None and not owned:
+                    out.append(('C06:soft-signal-without-running-job', 'USR1 to pid %d at event %d' % (p, n)))
+    return out
+
+
+def mon_C09(case, obs):
+    out = []
+    for n, (e, o) in enumerate(zip(case['events'], obs)):
+        idx = [w[1] for w in o['workers']]
+        if len(set(idx)) != len(idx):
+            out.append(('C09:duplicate-slot-index', 'indices %s after event %d %s' % (idx, n, e)))
+        if e[0] == 'tick' and not o['exc'] and o['state'] == 0:
+            prev = obs[n - 1] if n else None
+            if len(o['workers']) < o['nprocs']:
+                out.append(('C09:pool-below-size-after-pass', '%d workers, size %d at event %d' % (len(o['workers']), o['nprocs'], n)))
+            if prev is not None and len(o['workers']) > max(o['nprocs'], len(prev['workers'])):
+                out.append(('C09:pool-above-size-after-pass', '%d workers, size %d' % (len(o['workers']), o['nprocs'])))
+        if e[0] != 'tick' and n and len(o['workers']) > len(obs[n - 1]['workers']):
+            out.append(('C09:worker-started-outside-supervision', 'event %s' % e))
+    return out
+
+
+def mon_C10(case, obs):
+    out = []
+    for n, (e, o) in enumerate(zip(case['events'], obs)):
+        v, b = o['sem']
+        if v < 0 or v > b:
+            out.append(('C10:semaphore-out-of-bounds', 'value %d bound %d after event %d %s' % (v, b, n, e)))
+        if b != o['nprocs']:
+            out.append(('C10:bound-differs-from-size', 'bound %d size %d after %s' % (b, o['nprocs'], e)))
+    return out
+
+
+def mon_C11(case, obs):
+    out = []
+    mr = case['cfg'].get('max_restarts')
+    for n, (e, o) in enumerate(zip(case['events'], obs)):
+        if mr and (o['R'] < 0 or o['R'] > mr):
+            out.append(('C11:counter-out-of-budget', 'R=%d max_restarts=%d after %s' % (o['R'], mr, e)))
+    return out
+
+
+MONITORS = dict(C01=[mon_C01], C04=[mon_C04], C05=[mon_C05, mon_C05_jobs], C06=[mon_C06],
+                C09=[mon_C09], C10=[mon_C10], C11=[mon_C11])
+
+
+def pool_check(res, pid, n, focus=None, cfg=None, length=(5, 45), extra_cases=()):
+    """corpus + state-aware random histories: implementation vs proved model, plus the
+    property monitors on the implementation traces"""
+    rng = random.Random(res.seed * 65537 + sum(map(ord, pid)))
+    corpus = json.load(open(core.VERIF + '/corpus/pool.json'))
+    reqs = [dict(cfg=c['cfg'], events=c['events']) for c in corpus] + list(extra_cases)
+    reqs += gen_requests(rng, n, length=length, focus=focus, cfg=cfg)
+    outs = []
+    for part in core.chunks(reqs, 400):
+        outs += run_impl(part, timeout=600)
+    cases = [dict(cfg=r['cfg'], events=o['events']) for r, o in zip(reqs, outs)]
+    terms = [case_coq(c, o['obs']) for c, o in zip(cases, outs)]
+    codes, _ = core.coq_eval(pid + 'pool', HEADER, core.chunks(terms, 60), timeout=900)
+    hist = {}
+    distinct = set()
+    for c in cases:
+        kinds = set()
+        for e in c['events']:
+            hist[e[0]] = hist.get(e[0], 0) + 1
+            kinds.add(e[0])
+        if len(kinds) >= 4:
+            distinct.add(json.dumps(c['events']))
+    nalarm = 0
+    for c, o in zip(cases, outs):
+        for mon in MONITORS.get(pid, []):
+            for sig, what in mon(c, o['obs']):
+                nalarm += 1
+                if nalarm <= 50:
+                    res.alarms.append(dict(signature=sig, what=what, replay=dict(case=c, kind='pool-history')))
+    for i, code in codes:
+        k = code - 1000
+        c = cases[i]
+        res.broken.append(dict(kind='correspondence',
+                               name='Model/Pool.v vs billiard.pool at event %d %s' % (k, c['events'][k] if 0 <= k < len(c['events']) else '?'),
+                               detail=json.dumps(dict(cfg=c['cfg'], events=c['events'][:k + 1]))))
+        if len(res.broken) > 20:
+            break
+    res.add_cov(evaluations=len(cases), distinct=len(distinct), traces=len(cases),
+                samples=[dict(cfg=cases[-1]['cfg'], events=cases[-1]['events'][:12], first_obs=outs[-1]['obs'][0])],
+                rule='corpus of defect witnesses + state-aware random pool histories (harness/pool_gen.py) driven through the '
+                     'real parent-side code with fake processes and a fake clock; every observation compared with the proved '
+                     'model inside Coq; property monitors on the implementation trace; non-trivial = at least 4 distinct event kinds',
+                event_histogram=hist, events_total=sum(hist.values()), model_mismatches=len(codes))
+    return cases, outs
+
+
+def pool_replay(path):
+    d = json.load(open(path))
+    rep = d.get('replay') or {}
+    c = rep.get('case')
+    if not c:
+        print(json.dumps(d, indent=1)[:3000])
+        return 1
+    out = run_impl([dict(cfg=c['cfg'], events=c['events'])])[0]
+    for e, o in zip(c['events'], out['obs']):
+        print(json.dumps(e), '->', json.dumps(dict(ret=o['ret'], exc=o['exc'], sigs=o['sigs'], sem=o['sem'], R=o['R'],
+                                                     workers=o['workers'],
+                                                     jobs=[[j['kind'], j['incache'], j['ready'], j['val'], j['lost'], j['cb']] for j in o['jobs']])))
+    codes, _ = core.coq_eval('poolreplay', HEADER, [[case_coq(c, out['obs'])]])
+    print('model agrees with the implementation on this history' if not codes else
+          'model and implementation differ at event %d' % (codes[0][1] - 1000))
+    pid = d.get('property')
+    al = [a for m in MONITORS.get(pid, []) for a in m(c, out['obs'])]
+    for sig, what in al:
+        print('ALARM', sig, what)
+    return 1 if (codes or al) else 0
